@@ -84,10 +84,10 @@ func ruleExecuteBatchShapes(r *Report, rule string) {
 		g := buildCFG(info, fi.Decl.Body)
 		switch a {
 		case "boltdb", "gtreap":
-			merges := rangesOverField(info, fi.Decl.Body, "EmulatedMerge", "Merges")
-			ops := rangesOverField(info, fi.Decl.Body, "EmulatedBatch", "Ops")
+			merges := loopsOverField(info, fi.Decl.Body, "EmulatedMerge", "Merges")
+			ops := loopsOverField(info, fi.Decl.Body, "EmulatedBatch", "Ops")
 			fm := callsMatching(info, fi.Decl.Body, func(f *types.Func) bool { return f.Name() == "FullMerge" })
-			okKinds := len(merges) == 1 && len(ops) == 1 && len(fm) == 1
+			okKinds := merges == 1 && ops == 1 && len(fm) == 1
 			// FullMerge gets the existing value
 			if okKinds {
 				d := newDeps(info, fi.Decl.Body)
@@ -96,16 +96,29 @@ func ruleExecuteBatchShapes(r *Report, rule string) {
 			}
 			r.Ob(rule, a+"/handles-merges-with-existing-value,sets,deletes", fi.Decl.Pos(), okKinds, "ExecuteBatch folds every accumulated merge through MergeOperator.FullMerge with the key's existing value and applies every set/delete op")
 			// delete vs set decided on op.V != nil
+			// some call runs only for ops with a value, another only for ops without (whatever the
+			// spelling: if/else, guard clause with continue, inverted test)
 			setDel := false
-			for _, rs := range ops {
-				ast.Inspect(rs.Body, func(x ast.Node) bool {
-					if is, ok := x.(*ast.IfStmt); ok {
-						if xx, isEq, ok := nilTest(info, is.Cond); ok && !isEq && strings.HasSuffix(exprStr(xx), ".V") && is.Else != nil {
-							setDel = true
+			{
+				var withV, withoutV []*ast.CallExpr
+				for _, c := range callsIn(fi.Decl.Body) {
+					for _, fc := range g.GuardsOf(c) {
+						xx, isEq, isNil := nilTest(info, fc.Expr)
+						if fc.Tag != nil || !isNil {
+							continue
+						}
+						sel, isSel := ast.Unparen(xx).(*ast.SelectorExpr)
+						if !isSel || sel.Sel.Name != "V" {
+							continue
+						}
+						if isEq == fc.Truth {
+							withoutV = append(withoutV, c)
+						} else {
+							withV = append(withV, c)
 						}
 					}
-					return true
-				})
+				}
+				setDel = len(withV) > 0 && len(withoutV) > 0
 			}
 			r.Ob(rule, a+"/nil-value-means-delete", fi.Decl.Pos(), setDel, "an op with a nil value deletes the key, any other value sets it")
 			if a == "boltdb" {
@@ -140,8 +153,9 @@ func ruleExecuteBatchShapes(r *Report, rule string) {
 				stores := storesToField(info, fi.Decl.Body, "Store", "t")
 				okPub := len(stores) == 1
 				if okPub {
-					for _, rs := range append(merges, ops...) {
-						if len(enclosing(rs.Body, stores[0].Stmt)) > 0 {
+					for _, anc := range enclosing(fi.Decl.Body, stores[0].Stmt) {
+						switch anc.(type) {
+						case *ast.ForStmt, *ast.RangeStmt:
 							okPub = false // published inside a loop: partial batch visible
 						}
 					}
